@@ -1213,3 +1213,120 @@ def rf102(run):
                           'name up in name2rdn_tab: `global T:x:hr` with x already declared (argument, local or another global) is accepted and '
                           'bound to another register instead of raising MIR_repeated_decl_error' % ret['l'], line=ret['l'])
     return n
+
+
+# ---------------------------------------------------------------------------------------------
+# RF107: generator state that outlives a function is reset for every function
+# ---------------------------------------------------------------------------------------------
+
+RF107_TABLE = [
+    # (function, bitmap) pairs confirmed on the reference tree: the bitmap lives in the generator context from MIR_gen_init to
+    # MIR_gen_finish, is filled while one function is generated and read by later passes of the same generation
+    ('build_func_cfg', 'gen_ctx->tied_regs'),
+    ('build_func_cfg', 'gen_ctx->addr_regs'),
+    ('transform_addrs', 'gen_ctx->addr_regs'),
+    ('shrink_live_ranges', 'gen_ctx->lr_ctx->points_with_born_vars'),
+    ('shrink_live_ranges', 'gen_ctx->lr_ctx->points_with_dead_vars'),
+    ('process_bb_ranges', 'gen_ctx->lr_ctx->referenced_vars'),
+    ('process_bb_ranges', 'gen_ctx->lr_ctx->live_vars'),
+    ('process_bb_conflicts', 'gen_ctx->lr_ctx->live_vars'),
+    ('build_conflict_matrix', 'gen_ctx->coalesce_ctx->conflict_matrix'),
+    ('assign', 'gen_ctx->func_used_hard_regs'),
+]
+
+
+def rf107(run):
+    rule = 'RF107'
+    run.rule(rule, 'mir-gen.c: a bitmap of the generator context that collects facts about the function being generated (tied registers, '
+                   'address registers, live-range point sets, the conflict matrix, used hard registers) is cleared on *every* path through '
+                   'the function that starts collecting it — directly or by a helper that clears it on all of its paths.  A reset that '
+                   'a path skips (e.g. "nothing to collect for this function") leaves the facts of the function generated before, so '
+                   'the result depends on the order in which functions are generated')
+    tu = run.tu('gen')
+    memo = {}
+
+    def always_clears(g, b, depth=0):
+        k = (g.name, b)
+        if k in memo:
+            return memo[k]
+        memo[k] = False
+        if g.cfg_raw is None:
+            return False
+        cfg = g.cfg
+        blocks = set()
+        for x in g.walk():
+            if x['k'] != 'CallExpr':
+                continue
+            c = x.get('callee')
+            if c == 'bitmap_clear' and F.src(F.strip(F.call_args(x)[0])) == b:
+                blocks.add(cfg.block_of(x))
+            elif depth < 2 and c in tu.funcs and tu.funcs[c].body is not None and c != g.name and any(y['k'] == 'MemberExpr' and y['n'] == b.split('->')[-1] for y in tu.funcs[c].walk()) \
+                    and always_clears(tu.funcs[c], b, depth + 1):
+                blocks.add(cfg.block_of(x))
+        blocks.discard(None)
+        seen = cfg.reachable_from(cfg.entry, avoid=lambda bl: bl in blocks)
+        memo[k] = cfg.exit not in seen
+        return memo[k]
+    n = 0
+    for fn, b in RF107_TABLE:
+        g = tu.funcs.get(fn)
+        if g is None or g.body is None:
+            raise F.AnalysisBroken('RF107: function %s not found' % fn)
+        run.functions_analysed.add(('gen', fn))
+        ok = always_clears(g, b)
+        n += 1
+        run.ob(rule, (fn, b), ok, {'function': fn, 'state': b, 'cleared on every path': ok})
+        if not ok:
+            run.violation(rule, g, 'stale %s' % b.split('->')[-1], 'a path through %s does not clear `%s`: what the generation of the previous function '
+                          'left in it is read by the passes that follow (e.g. a register of a function without tied globals is taken for a '
+                          'tied one), so generating the same functions in another order gives another result' % (fn, b), line=g.line)
+    return n
+
+
+# ---------------------------------------------------------------------------------------------
+# RF108: a reference operand stays on the import item
+# ---------------------------------------------------------------------------------------------
+
+def rf108(run):
+    from lib import printexec as PE
+    rule = 'RF108'
+    run.rule(rule, 'simplify_op (run once, when a module is loaded): the loop that replaces a reference operand by the item it stands for '
+                   'follows ref_def only through export and forward items of the same module.  Its stop condition, evaluated for every '
+                   'item kind, is true for an import item: the operand keeps denoting the import, whose address MIR_link rebinds at every '
+                   'link step; an operand rewritten to the definition found at the first link never sees a later definition')
+    tu = run.tu('mir')
+    f = tu.func('simplify_op')
+    run.functions_analysed.add(('mir', f.name))
+    loops = [x for x in f.walk() if x['k'] == 'ForStmt' and 'ref_def' in F.src(x['c'][2] if len(x['c']) > 2 and x['c'][2] is not None else x)]
+    loops = [x for x in f.walk() if x['k'] == 'ForStmt' and any(y['k'] == 'MemberExpr' and y['n'] == 'ref_def' for y in F.walk(x))]
+    if not loops:
+        raise F.AnalysisBroken('simplify_op: the loop over ref_def was not found')
+    kinds = dict(tu.enum_by_member('MIR_import_item')[1])
+    n = 0
+    for lp in loops:
+        ifs = [x for x in F.walk(lp) if x['k'] == 'IfStmt' and 'item_type' in F.src(x['c'][0])]
+        if not ifs:
+            raise F.AnalysisBroken('simplify_op: the stop condition of the ref_def loop was not found')
+        cond = ifs[0]['c'][0]
+        var = None
+        for y in F.walk(cond):
+            if y['k'] == 'MemberExpr' and y['n'] == 'item_type':
+                var = F.src(y).replace(' ', '')
+        for kn, kv in sorted(kinds.items(), key=lambda t: t[1]):
+            ex = PE.PrintExec(tu, {}, {}, {})
+            try:
+                v = ex.val(cond, {var: kv})
+            except F.AnalysisBroken:
+                v = None
+            if v is None:
+                raise F.AnalysisBroken('simplify_op: stop condition `%s` not evaluable for %s' % (F.src(cond)[:60], kn))
+            want = kn not in ('MIR_export_item', 'MIR_forward_item')
+            n += 1
+            ok = bool(v) == want
+            run.ob(rule, (lp['l'], kn), ok, {'item kind': kn, 'loop stops here': bool(v)})
+            if not ok:
+                run.violation(rule, f, 'reference operand through %s' % kn, 'the loop at line %d %s at an item of kind %s: %s' %
+                              (lp['l'], 'does not stop' if want else 'stops', kn,
+                               'a reference to an import is rewritten to the definition bound at the first link and no later MIR_link can rebind it'
+                               if kn == 'MIR_import_item' else 'the operand denotes a declaration instead of the definition'), line=ifs[0]['l'])
+    return n
